@@ -6,6 +6,7 @@ require (
 	github.com/bolkedebruin/rdpgw v0.0.0
 	github.com/coreos/go-oidc/v3 v3.9.0
 	github.com/go-jose/go-jose/v4 v4.0.5
+	github.com/m7913d/go-ntlm v0.0.1
 	golang.org/x/oauth2 v0.18.0
 )
 
@@ -25,6 +26,8 @@ require (
 	github.com/hashicorp/go-uuid v1.0.3 // indirect
 	github.com/jcmturner/goidentity/v6 v6.0.1 // indirect
 	github.com/knadh/koanf/maps v0.1.1 // indirect
+	github.com/knadh/koanf/parsers/yaml v0.1.0 // indirect
+	github.com/knadh/koanf/providers/confmap v0.1.0 // indirect
 	github.com/knadh/koanf/providers/file v0.1.0 // indirect
 	github.com/knadh/koanf/v2 v2.1.0 // indirect
 	github.com/mitchellh/copystructure v1.2.0 // indirect
@@ -41,6 +44,7 @@ require (
 	google.golang.org/genproto/googleapis/rpc v0.0.0-20240314234333-6e1732d8331c // indirect
 	google.golang.org/grpc v1.62.1 // indirect
 	google.golang.org/protobuf v1.33.0 // indirect
+	gopkg.in/yaml.v3 v3.0.1 // indirect
 )
 
 replace github.com/bolkedebruin/rdpgw => /repo
